@@ -53,6 +53,15 @@ def h_left_step(ctx, d, i, n, rl, rr, inplace, layout='C', alias=False):
         ctx.claim('result_is_new_list', Z is not Y)
     ctx.claim('finite', finite(ctx, Z))
     ctx.canary('canary', ctx.all_eq(ref_full(Z), ref_full(Y0) * 2))
+    if not inplace:
+        # "returns a new tensor": what the caller does to the cores it got back is its own business
+        snap = [G.copy() for G in Z]
+        for G in Z:
+            if G.flags.writeable:
+                G[...] = G * 2 + 1
+        Z2 = teneva.orthogonalize_left(Y, i)
+        ctx.claim('second_call_unaffected_by_writes_to_first_result',
+                  all(a.shape == b.shape and bool(ctx.all_eq(a, b)) for a, b in zip(Z2, snap)))
 
 
 def h_right_step(ctx, d, i, n, rl, rr, inplace, layout='C'):
@@ -88,6 +97,14 @@ def h_right_step(ctx, d, i, n, rl, rr, inplace, layout='C'):
                   all(bool(ctx.all_eq(Y[j], Y0[j])) for j in range(d)))
         ctx.claim('result_is_new_list', Z is not Y)
     ctx.claim('finite', finite(ctx, Z))
+    if not inplace:
+        snap = [G.copy() for G in Z]
+        for G in Z:
+            if G.flags.writeable:
+                G[...] = G * 2 + 1
+        Z2 = teneva.orthogonalize_right(Y, i)
+        ctx.claim('second_call_unaffected_by_writes_to_first_result',
+                  all(a.shape == b.shape and bool(ctx.all_eq(a, b)) for a, b in zip(Z2, snap)))
 
 
 def h_invalid_mode(ctx, d):
